@@ -311,3 +311,24 @@ CONFIG["C20"] = {
                                          "interleavings are whatever the OS scheduler produces under 8 workers x up to 16 threads on 16 cores plus random yields; the evidence lists overlap counts, not a schedule enumeration"],
     "counter_floors": {"quick": {"overlaps.same-shared-object": 25000, "ops.concurrent": 1000000}},
 }
+
+
+# ---------------------------------------------------------------- passive monitors added to existing checks
+MIRI_ENV = {"MIRIFLAGS": "-Zmiri-disable-isolation"}
+
+def _add_passes(prop, extra):
+    cfg = CONFIG[prop]
+    cfg["passes"] = list(cfg.get("passes", [{"variant": "verif"}])) + extra
+
+# AddressSanitizer + LeakSanitizer with the C library instrumented, on a pseudo-random subset of every sub-check
+for _p, _q, _t in [("C03", 6, 25), ("C05", 6, 25), ("C06", 6, 25), ("C08", 6, 25), ("C14", 10, 40), ("C15", 6, 25), ("C16", 6, 25), ("C12", 6, 25), ("C07", 4, 15)]:
+    _add_passes(_p, [
+        {"variant": "asan", "params": {"scale_pct": _q}, "env": SAN_ENV_ASAN, "tiers": ["quick"], "budget_s": {"quick": 60, "thorough": 60}},
+        {"variant": "asan", "params": {"scale_pct": _t}, "env": SAN_ENV_ASAN, "tiers": ["thorough"]},
+    ])
+
+# Miri (pure-Rust paths only: these checks never call into C), thorough tier
+for _p, _s in [("C04", 1), ("C10", 1), ("C11", 1), ("C13", 1), ("C18", 1), ("C01", 1), ("C02", 1)]:
+    _add_passes(_p, [
+        {"variant": "miri", "params": {"scale_pct": _s, "skip_subs": "depth-stress+nat-small-exhaustive+nat-decode-all"}, "env": MIRI_ENV, "tiers": ["thorough"], "budget_s": {"quick": 300, "thorough": 900}, "jobs": {"quick": 8, "thorough": 16}},
+    ])
